@@ -43,6 +43,14 @@ type oblReport struct {
 }
 
 func fullKey(key string) string {
+	if i := strings.Index(key, "@"); i >= 0 {
+		t := key[i+1:]
+		ft := repoPrefix + "/" + strings.TrimPrefix(t, "*")
+		if strings.HasPrefix(t, "*") {
+			ft = "*" + ft
+		}
+		return fullKey(key[:i]) + "@" + ft
+	}
 	switch {
 	case strings.HasPrefix(key, "(*"):
 		return "(*" + repoPrefix + "/" + key[2:]
@@ -153,7 +161,11 @@ func cmdCheck(args []string) int {
 	usedLemmas := map[string]bool{}
 	for _, k := range cfg.Funcs {
 		key := fullKey(k)
-		fn := g.FindFunc(key)
+		fnKey := key
+		if i := strings.Index(key, "@"); i >= 0 {
+			fnKey = key[:i]
+		}
+		fn := g.FindFunc(fnKey)
 		c := g.db.Contracts[key]
 		if fn == nil {
 			undecided = append(undecided, "contract-target-missing "+k)
@@ -197,6 +209,10 @@ func cmdCheck(args []string) int {
 			knownOpen[k.Obligation] = k
 		}
 	}
+	ledgerClass := map[string]bool{}
+	for n := range ledger {
+		ledgerClass[classOfName(n)] = true
+	}
 	var reports []oblReport
 	discharged := 0
 	bySolver := map[string]int{}
@@ -231,7 +247,18 @@ func cmdCheck(args []string) int {
 			undecided = append(undecided, "obligation "+name+" (function uses constructs outside the verified subset)")
 			continue
 		}
-		if ledger[name] || *update {
+		inLedger := ledger[name]
+		if !inLedger && ledgerClass[classOfName(name)] {
+			// a new instance of a contract clause (e.g. a new back edge of a loop invariant, a new call site of a
+			// precondition) that was fully discharged on the reference tree; raw safety obligations count only for C17
+			switch r.o.Kind {
+			case "post", "inv-init", "inv-pres", "pre", "assigns", "lemma", "lemma-base", "lemma-step":
+				inLedger = true
+			default:
+				inLedger = id == "C17"
+			}
+		}
+		if inLedger || *update {
 			path := writeReplay(id, name, r)
 			suffix := " no-failing-input-found"
 			if ok, rp := tryReplay(g, id, r, path); ok {
@@ -430,3 +457,11 @@ func cmdReplay(args []string) int {
 }
 
 func cmdSelftest(args []string) int { return 2 }
+
+// classOfName strips the instance ordinal: obligations of one contract clause / one safety kind of one function.
+func classOfName(n string) string {
+	if i := strings.LastIndex(n, "/"); i >= 0 {
+		return n[:i]
+	}
+	return n
+}
